@@ -36,7 +36,7 @@ type c10Plan struct {
 	comeback, released, cameBack bool
 	cbOff                        time.Duration
 	cbSteps, cbN                 int
-	cbAt                         int64  // instant the old connection was closed
+	cbAt                         int64 // instant the old connection was closed
 }
 
 func scenarioC10(r *Run) {
@@ -566,7 +566,6 @@ func scenarioC10(r *Run) {
 	r.CheckNoPanics("C10")
 	_ = os.Interrupt
 }
-
 
 // scenarioC10UP4: the end of an association on the P4Runtime datapath, where a
 // session's removal can be refused: one Write RPC of the teardown fails; every
